@@ -186,10 +186,23 @@ func runFTPPaths(ops []string) {
 			}
 		}
 	}
+	// a command's reply is the first reply before the answer to a NOOP sent right after it (MDTM of an existing
+	// path answers twice: 213 and then 450; without the marker every later reply would be read one command late)
 	send := func(s string) (int, string) {
 		cli.SetWriteDeadline(time.Now().Add(5 * time.Second))
-		cli.Write([]byte(s + "\r\n"))
-		return reply()
+		cli.Write([]byte(s + "\r\nNOOP\r\n"))
+		code, text := reply()
+		if code == -1 {
+			return code, text
+		}
+		for i := 0; i < 8; i++ {
+			c, t := reply()
+			if c == 200 && strings.HasPrefix(t, "OK") || c == -1 {
+				break
+			}
+			_ = t
+		}
+		return code, text
 	}
 	reply()
 	send("USER anonymous")
